@@ -391,6 +391,14 @@ pub fn run(thorough: bool, seed: u64, driver: &str, rep: &mut Report) {
             reqs.push(load.clone());
             pend.push(None);
             let cols: Vec<&str> = lines.get(1).map(|l| l.split('\t').collect()).unwrap_or_default();
+            // the whole row through the model of the tool's own logic (CLIR.statsRow): "-" for a refused value
+            if cols.len() == 9 {
+                let sc = |c: &str| if c == "-" { "-".to_string() } else { c.parse::<f64>().ok().and_then(scaled).map_or(format!("?{c}"), |n| n.to_string()) };
+                let b = |c: &str| match c { "true" => "1", "false" => "0", x => x }.to_string();
+                reqs.push(format!("cli.stats\t{UNIT}"));
+                pend.push(Some(Pend { ctx: format!("{ctx0}\nphylotree stats FILE (whole row)"), cli_tree: None, cli_failed: false, kind: "value",
+                    expect_line: Some(format!("ok {} {} {} {} {} {} {} {} {}", sc(cols[0]), sc(cols[1]), cols[2], cols[3], b(cols[4]), b(cols[5]), cols[6], cols[7], cols[8])) }));
+            }
             for (i, q) in [(0usize, format!("ar.q\theight\t{UNIT}")), (1, format!("ar.q\tdiameter\t{UNIT}")), (3, "ar.q\tn_leaves".to_string()), (4, "ar.q\tis_rooted".to_string()), (5, "ar.q\tis_binary".to_string()), (6, "ar.q\tcherries".to_string()), (7, "ar.q\tcolless".to_string()), (8, "ar.q\tsackin".to_string())] {
                 let col = cols.get(i).cloned().unwrap_or("?");
                 // the model's answer in the CLI's rendering
@@ -484,6 +492,18 @@ pub fn run(thorough: bool, seed: u64, driver: &str, rep: &mut Report) {
                     }
                 }
             }
+            // the table through the model of the tool's loop (CLIR.cliDistance): every pair of argument positions, in order
+            {
+                let names = picks.iter().map(|x| hex(x)).collect::<Vec<_>>().join(",");
+                let expect = if r.code == Some(0) {
+                    let rows: Vec<String> = r.stdout.lines().skip(1).map(|l| { let f: Vec<&str> = l.split('\t').collect(); if f.len() == 3 { format!("{}:{}:{}", hex(f[0]), hex(f[1]), f[2].parse::<f64>().ok().and_then(scaled).map_or(format!("?{}", f[2]), |n| n.to_string())) } else { format!("?{l}") } }).collect();
+                    format!("ok {}", rows.join(";"))
+                } else { "err".to_string() };
+                reqs.push(load.clone());
+                pend.push(None);
+                reqs.push(format!("cli.distance\t{names}"));
+                pend.push(Some(Pend { ctx: format!("{ctx0}\nphylotree distance FILE {picks:?}"), cli_tree: None, cli_failed: false, kind: "value", expect_line: Some(expect) }));
+            }
             if expect_fail {
                 if r.code == Some(0) {
                     rep.oracle("distance", "missing-length-accepted", &format!("{ctx0}\nphylotree distance FILE {picks:?}"), &r.stdout);
@@ -562,6 +582,9 @@ pub fn run(thorough: bool, seed: u64, driver: &str, rep: &mut Report) {
                     pend.push(None);
                     reqs.push("sp\tcmp".into());
                     pend.push(Some(Pend { ctx: format!("{ctx0}\ncompared file: {}\nphylotree compare REF CMP", o2.newick()), cli_tree: None, cli_failed: false, kind: "cmp", expect_line: Some(format!("{} {} {} {}", cols[5], cols[6], cols[7], cols[8])) }));
+                    // the three count columns through the model of the tool's own row (CLIR.cliCompareRow)
+                    reqs.push("cli.compare".into());
+                    pend.push(Some(Pend { ctx: format!("{ctx0}\ncompared file: {}\nphylotree compare REF CMP (reference / common / compared)", o2.newick()), cli_tree: None, cli_failed: false, kind: "value", expect_line: Some(format!("ok {} {} {}", cols[2], cols[3], cols[4])) }));
                 }
                 // identical splits: nothing differs, whatever the rooting
                 if sa.len() == common && sb.len() == common && cols.len() == 9 && (cols[5] != "0" || cols[6] != "0") && sa.len() > 0 {
